@@ -792,8 +792,8 @@ func enumFault(thorough bool, yield func(FaultCase) bool) {
 }
 
 func init() {
-	h.Prop("history_vs_destination_model", 1600, 40000, genCase, runHistory)
-	h.Prop("race_detector_cli", 160, 4000, func(t *rapid.T) Case {
+	h.Prop("history_vs_destination_model", 1600, 24000, genCase, runHistory)
+	h.Prop("race_detector_cli", 160, 2400, func(t *rapid.T) Case {
 		c := genCase(t)
 		c.Fill = rapid.SampledFrom([]int{3, 40, 400}).Draw(t, "fill2")
 		return c
